@@ -91,8 +91,162 @@ def generate_psi_phi(ctx):
 KAP = Fraction(2, 5)
 
 
+ORDER_REPLAY = r'''
+import numpy as np
+from bldfm.pbl_model import vertical_profiles
+kw = %(kw)r
+n, zm, wind = %(n)d, %(zm)r, %(wind)r
+z, (u, v, Kx, Ky, Kz) = vertical_profiles(n, zm, wind, **kw)
+z = np.asarray(z, dtype=float)
+fin = np.isfinite(z)
+zf = z[fin]
+bad = []
+if zf.size and not np.all(np.diff(zf) > 0): bad.append("grid not strictly increasing: %%s" %% zf[:6])
+if zf.size and not np.all(zf > 0): bad.append("non-positive height")
+top = kw.get("domain_height", 2 * zm)
+if fin.all() and z[-1] < top * (1 - 1e-12): bad.append("top node %%r below the domain height %%r" %% (z[-1], top))
+ust = kw.get("ustar")
+if ust is None:
+    from bldfm.pbl_model import psi
+    ust = float(np.hypot(*wind) * 0.4 / (np.log(zm / kw["z0"]) + psi(zm / kw.get("mol", 1e9))))
+if ust > 0:
+    for nm, K in (("Kz", Kz),) + ((("Kx", Kx), ("Ky", Ky)) if kw.get("closure") != "MOSTM" else ()):
+        K = np.broadcast_to(np.asarray(K, dtype=float), z.shape)
+        if not np.all(K[fin] > 0): bad.append("%%s not strictly positive" %% nm)
+print(("REPLAY-FAIL " if bad else "REPLAY-PASS ") + "n=%%d zm=%%r wind=%%r %%r -> %%s" %% (n, zm, wind, kw, "; ".join(bad) or "order clauses hold at this point"))
+raise SystemExit(1 if bad else 0)
+'''
+
+
+def order_replay(closure, given, explicit, tke):
+    """Native replay of a refuted order clause at the input point of the solver's model (uninterpreted exp/log:
+    the model need not be a real counterexample; the native run decides)."""
+    def replay(model):
+        def val(name, default):
+            for k_, v in model.items():
+                if k_ == name or k_.startswith(name + "!"):
+                    try:
+                        return float(Fraction(str(v).rstrip("?")))
+                    except (ValueError, ZeroDivisionError):
+                        pass
+            return default
+        kw = {"closure": closure, "mol": val("mol", -50.0), "prsc": val("prsc", 1.0)}
+        if given == "ustar":
+            kw["ustar"] = val("ustar", 0.4)
+        else:
+            kw["z0"] = val("z0", 0.1)
+        if explicit:
+            kw["stretch"], kw["domain_height"] = val("stretch", 20.0), val("domain_height", 30.0)
+        if tke:
+            kw["tke"] = val("tke", 1.0)
+        n = int(max(1, min(val("n", 4), 4000)))
+        return {"code": ORDER_REPLAY % {"kw": kw, "n": n, "zm": val("zm", 10.0), "wind": (val("um", 3.0), val("vm", 1.0))}}
+    return replay
+
+
+def inequalities(run, closure, z, K3, N, n, zm, z0s, usts, L, pr, h, zmx, default_grid, props, rp=None):
+    """Order clauses of C09 (strictly increasing grid, positive heights and diffusivities, top node at or
+    above the domain height).  SMT obligations in real arithmetic with exp/log uninterpreted; the only facts
+    about them are the ground order instances of transc.order_instances for the applications that occur
+    (A8), the arange length fact (A2) and, for the default grid, rational enclosures of e^-1, e^-1/2.
+
+    The stretched grid is z = -h log(A(zeta)) with A(k) = E0 - k (E0 - Em)/n, E0 = exp(-z0/h), Em = exp(-zm/h):
+    a node exists (is not NaN) iff A(k) > 0 ("below the asymptote of the map").  The clauses are proved for
+    every node below the asymptote; that every node of the DEFAULT grid (h = zmx = 2 zm) with n >= 2 layers is
+    below it is proved as well.  For n = 1 and for explicit (stretch, domain_height) the premise stays a
+    premise (bounded stand-in; it is false for a domain height far above the stretch height)."""
+    Kx, Ky, Kz = K3
+    k = sym.fresh_int("ki")
+    # a derived roughness length (u* given) is generalised to a fresh positive symbol: the clauses are proved for
+    # every roughness length below zm, hence for the derived one (the code computes it once and reuses the value)
+    gen = None
+    if not z3.is_const(num(z0s).zr()):
+        gen = (num(z0s).zr(), z3.Real("z0_derived"))
+        z0s = Num(gen[1], True)
+
+    def G(x):
+        x = num(x)
+        if not gen or x.concrete:
+            return x
+        if x.is_int:
+            return Num(z3.substitute(x.t, gen))
+        return Num(z3.substitute(x.zr(), gen), True)
+    N = G(N)
+    E0, Em, EX = transc.exp(-z0s / h), transc.exp(-zm / h), transc.exp(-zmx / h)
+    A = lambda j: E0 - num(j) * (E0 - Em) / n  # noqa: E731
+    zk, zk1, zl = G(z.at(k)), G(z.at(k + 1)), G(z.at(N - 1))
+    Kk = G(Kz.at(k))
+    Kx, Ky, Kz = [Arr(a.axes, (lambda a: lambda j: G(a.at(j)))(a), "float") for a in (Kx, Ky, Kz)]
+    ar = []
+    for (Nn, a, b, st) in run.__dict__.get("arange_defs", []):
+        Nn, a, b, st = G(Nn), G(a), G(b), G(st)
+        ar.append(z3.Implies(z3.And(st.zr() > 0, b.zr() > a.zr()),
+                             z3.And((a + (Nn - 1) * st).zr() < b.zr(), b.zr() <= (a + Nn * st).zr(), Nn.t >= 1)))
+    terms = [zk, zk1, zl, Kk, E0, Em, EX, num(z0s), A(k), A(k + 1), A(N - 1)]
+    hy = transc.order_instances(terms) + ar
+    pre = [z0s < zm, z0s > 0]
+    rng = [(k >= 0) & (k < N)]
+    run.oblige("grid.strictly-increasing (nodes below the asymptote of the map)", zk < zk1, kind="post", cls="premise", replay=rp, props=props, hyps=hy,
+               assuming=pre + [(k >= 0) & (k + 1 < N), A(k + 1) > 0])
+    run.oblige("grid.nodes-at-or-above-the-roughness-length (hence positive)", (zk >= z0s) & (zk > 0), kind="post", cls="premise", replay=rp, props=props, hyps=hy,
+               assuming=pre + rng + [A(k) > 0])
+    run.oblige("grid.top-node-reaches-the-domain-height", zl >= zmx, kind="post", cls="premise", replay=rp, props=props, hyps=hy,
+               assuming=pre + [N >= 1, A(N - 1) > 0, zmx >= zm])
+    if closure == "MOSTM":
+        run.oblige("K.vertical-strictly-positive", Kk > 0, kind="post", cls="premise", replay=rp, props=props, hyps=hy,
+                   assuming=pre + rng + [A(k) > 0, usts > 0])
+    else:
+        for nm, a in (("Kx", Kx), ("Ky", Ky), ("Kz", Kz)):
+            run.oblige("K.strictly-positive." + nm, num(a.at(k)) > 0, kind="post", cls="premise", replay=rp, props=props, hyps=hy,
+                       assuming=pre + rng + [A(k) > 0, usts > 0])
+    # vacuity guards: the premises (with every instance) are jointly satisfiable
+    # (shown at a pinned input point: satisfiability of nonlinear formulas with uninterpreted functions is
+    # otherwise out of the solver's reach; any model suffices for non-vacuity)
+    pin = [zm == 10, n == 4, k == 1, pr == 1] + ([z0s == Fraction(1, 10)] if z3.is_const(num(z0s).zr()) else [])
+    run.oblige("premises-of-the-order-clauses-satisfiable", SBool(True), kind="cover", expect="sat", props=props, hyps=hy,
+               assuming=pre + pin + [(k >= 0) & (k + 1 < N), A(k + 1) > 0, A(N - 1) > 0, usts > 0, zmx >= zm])
+    if default_grid:
+        # Every node of the default grid (h = zmx = 2 zm) with n >= 2 layers lies below the asymptote.  Three steps:
+        #  (1) the code's np.arange arguments equal start = 0, step = zm/n, stop = (zm/D)(E0 - EX) + zm/n with
+        #      D = E0 - Em (exact identities, value view, exp applications as atoms);
+        #  (2) a polynomial lemma over fresh reals e0, em, ex (no uninterpreted function): from the arange length fact
+        #      M*step < stop, 0.6065 < em < e0 < 1, ex > 0.3678, n >= 2 follows e0 - M (e0 - em)/n > 0;
+        #  (3) the clause itself from the arange fact (A2), (1), the instance of (2) at the exp applications and the
+        #      order / numeric instances for them (A8).
+        D = E0 - Em
+        Sstop, Sstep = zm / D * (E0 - EX) + zm / n, zm / n
+        eqs = []
+        for (Nn, a_, b_, st_) in run.__dict__.get("arange_defs", [])[-1:]:
+            Nn, a_, b_, st_ = G(Nn), G(a_), G(b_), G(st_)
+            run.oblige("grid.arange-start-is-0", loops.scalar_eq(a_, 0), kind="post", view="value", props=props, assuming=pre)
+            run.oblige("grid.arange-step-is-zm/n", loops.scalar_eq(st_, Sstep), kind="post", view="value", props=props, assuming=pre)
+            run.oblige("grid.arange-stop-is-mapped-domain-height-plus-one-step", loops.scalar_eq(b_, Sstop), kind="post", view="value",
+                       props=props, assuming=pre)
+            eqs = [a_.zr() == 0, st_.zr() == Sstep.zr(), b_.zr() == Sstop.zr()]
+        e0, em, ex, zq, M, nq = z3.Real("e0"), z3.Real("em"), z3.Real("ex"), z3.Real("zq"), z3.Int("Mq"), z3.Int("nq")
+        prem = lambda e0, em, ex, zq, M, nq: z3.And(  # noqa: E731
+            zq > 0, nq >= 2, M >= 0, em > z3.Q(6065, 10000), em < e0, e0 < 1, ex > z3.Q(3678, 10000),
+            z3.ToReal(M) * (zq / z3.ToReal(nq)) < zq / (e0 - em) * (e0 - ex) + zq / z3.ToReal(nq))
+        concl = lambda e0, em, ex, zq, M, nq: e0 - z3.ToReal(M) * (e0 - em) / z3.ToReal(nq) > 0  # noqa: E731
+        run.oblige("lemma.default-grid-below-asymptote (polynomial, fresh reals for the exp values)",
+                   SBool(z3.Implies(prem(e0, em, ex, zq, M, nq), concl(e0, em, ex, zq, M, nq))), kind="lemma", cls="lemma", props=props)
+        inst = z3.Implies(prem(E0.zr(), Em.zr(), EX.zr(), num(zm).zr(), (N - 1).t, n.t), concl(E0.zr(), Em.zr(), EX.zr(), num(zm).zr(), (N - 1).t, n.t))
+        zero = Num(0, True)
+        hy2 = ar + eqs + [inst] + transc.exp_bounds() + \
+            transc.order_instances([E0, Em, EX], extra=[c.arg(0) for c in transc.exp_bounds()[1::2]] + [transc.exp_bounds()[0].arg(0)])
+        run.oblige("grid.every-node-below-the-asymptote [default grid, n >= 2]", A(N - 1) > 0, kind="post", cls="premise", replay=rp, props=props,
+                   hyps=hy2, assuming=pre + [n >= 2, N >= 1])
+        run.oblige("premises-of-the-default-grid-clause-satisfiable", SBool(True), kind="cover", expect="sat", props=props, hyps=hy2,
+                   assuming=pre + pin + [n >= 2, N >= 1])
+        run.oblige("grid.asymptote-premise-is-monotone: A(k) >= A(N-1)", A(k) >= A(N - 1), kind="lemma", cls="lemma", props=props, hyps=hy,
+                   assuming=pre + rng)
+
+
 def generate_profiles(ctx):
-    if not ctx.wants(P):
+    # the wind clauses (vector reproduced at zm, direction constant, log law along (um, vm)) are also links
+    # of C08's convention chain: wind=(u, v) handed to the closure comes out along the same direction
+    PW = {"C08", "C09"}
+    if not ctx.wants(PW):
         return
     ns = pbl_namespace(ctx)
     f = harness.define(ctx, ns, "bldfm.pbl_model", "vertical_profiles")
@@ -132,33 +286,75 @@ def generate_profiles(ctx):
                 k = sym.fresh_int("k")
                 rng = [(k >= 0) & (k < N)]
                 # grid: starts at the roughness length, measurement height exactly at index n
-                run.oblige("grid.first-node-is-roughness-length", loops.scalar_eq(z.at(0), z0s), kind="post", view="value")
-                run.oblige("grid.node-n-is-measurement-height", loops.scalar_eq(z.at(n), zm), kind="post", view="value")
+                run.oblige("grid.first-node-is-roughness-length", loops.scalar_eq(z.at(0), z0s), kind="post", view="value", props=P)
+                run.oblige("grid.node-n-is-measurement-height", loops.scalar_eq(z.at(n), zm), kind="post", view="value", props=P)
                 # wind vector reproduced at the measurement height, direction constant with height
-                run.oblige("wind.u-at-zm", loops.scalar_eq(u.at(n), um), kind="post", view="value")
-                run.oblige("wind.v-at-zm", loops.scalar_eq(v.at(n), vm), kind="post", view="value")
-                run.oblige("wind.direction-constant", loops.scalar_eq(num(u.at(k)) * vm, num(v.at(k)) * um), kind="post", view="value", assuming=rng)
+                run.oblige("wind.u-at-zm", loops.scalar_eq(u.at(n), um), kind="post", view="value", props=PW)
+                run.oblige("wind.v-at-zm", loops.scalar_eq(v.at(n), vm), kind="post", view="value", props=PW)
+                run.oblige("wind.direction-constant", loops.scalar_eq(num(u.at(k)) * vm, num(v.at(k)) * um), kind="post", view="value", assuming=rng, props=PW)
                 # diffusivity: similarity formula K = kappa u* z / (phi(z/L) Pr)
                 if closure == "CONSTANT":
                     Kw = KAP * usts * zm / pr          # recorded: height-constant value of the neutral formula at zm
                 else:
                     Kw = KAP * usts * z.at(k) / phi(z.at(k) / L) / pr
-                run.oblige("K.similarity-formula.Kz", loops.scalar_eq(Kz.at(k), Kw), kind="post", view="value", assuming=rng)
+                run.oblige("K.similarity-formula.Kz", loops.scalar_eq(Kz.at(k), Kw), kind="post", view="value", assuming=rng, props=P)
                 if closure == "MOSTM":
-                    run.oblige("K.horizontal-split-sums-to-K", loops.scalar_eq(num(Kx.at(k)) + num(Ky.at(k)), Kw), kind="post", view="value", assuming=rng)
+                    run.oblige("K.horizontal-split-sums-to-K", loops.scalar_eq(num(Kx.at(k)) + num(Ky.at(k)), Kw), kind="post", view="value", assuming=rng, props=P)
                     s2 = num(u.at(k)) ** 2 + num(v.at(k)) ** 2
-                    run.oblige("K.no-diffusion-along-the-flow", loops.scalar_eq(num(Kx.at(k)) * s2, Kw * num(v.at(k)) ** 2), kind="post", view="value", assuming=rng)
+                    run.oblige("K.no-diffusion-along-the-flow", loops.scalar_eq(num(Kx.at(k)) * s2, Kw * num(v.at(k)) ** 2), kind="post", view="value", assuming=rng, props=P)
                 else:
-                    run.oblige("K.isotropic.Kx", loops.scalar_eq(Kx.at(k), Kw), kind="post", view="value", assuming=rng)
-                    run.oblige("K.isotropic.Ky", loops.scalar_eq(Ky.at(k), Kw), kind="post", view="value", assuming=rng)
+                    run.oblige("K.isotropic.Kx", loops.scalar_eq(Kx.at(k), Kw), kind="post", view="value", assuming=rng, props=P)
+                    run.oblige("K.isotropic.Ky", loops.scalar_eq(Ky.at(k), Kw), kind="post", view="value", assuming=rng, props=P)
                 for nm, a in (("u", u), ("v", v), ("Kx", Kx), ("Ky", Ky), ("Kz", Kz)):
-                    run.oblige("profiles.same-length-as-grid." + nm, a.axes[0].size == N, kind="post")
+                    run.oblige("profiles.same-length-as-grid." + nm, a.axes[0].size == N, kind="post", props=P)
                 # wind profile: diabatic log law
                 if closure != "CONSTANT":
                     absu = usts / KAP * (transc.log(z.at(k) / z0s) + psi(z.at(k) / L))
-                    run.oblige("wind.log-law.u", loops.scalar_eq(u.at(k), um / absU * absu), kind="post", view="value", assuming=rng)
+                    run.oblige("wind.log-law.u", loops.scalar_eq(u.at(k), um / absU * absu), kind="post", view="value", assuming=rng, props=PW)
+                inequalities(run, closure, z, (Kx, Ky, Kz), N, n, zm, z0s, usts, L, pr, gk.get("stretch", 2 * zm), gk.get("domain_height", 2 * zm),
+                             grid == "default", P, rp=order_replay(closure, given, grid == "explicit", False))
                 run.cover("path")
-            ctx.explore("pbl_model.vertical_profiles[%s|%s|%s]" % (closure, given, grid), thunk, P)
+            ctx.explore("pbl_model.vertical_profiles[%s|%s|%s]" % (closure, given, grid), thunk, PW)
+
+    # one-and-a-half order closure (Schumann-Lilly): roughness length from the friction velocity and the
+    # turbulent kinetic energy; wind = logarithmic law with u*^2/(cm cl sqrt(e)); K = ch cl z sqrt(e)
+    CL, CM, CH = Fraction(845, 1000), Fraction(856, 10000), Fraction(204, 1000)
+    for tk in ("given", "default"):
+        def t_oa(run, tk=tk):
+            run.scope = "pbl_model.vertical_profiles[OAAHOC|tke %s]" % tk
+            n, zm, um, vm, L, pr = inputs(run)
+            ust = sym.fresh_real("ustar")
+            run.assume(ust > 0)
+            absU = transc.sqrt(um * um + vm * vm)
+            if tk == "given":
+                e = sym.fresh_real("tke")
+                run.assume(e > 0)
+                out = harness.call(run, f, n, zm, (um, vm), ustar=ust, mol=L, prsc=pr, closure="OAAHOC", tke=e)
+            else:
+                e = Num(1, True)
+                out = harness.call(run, f, n, zm, (um, vm), ustar=ust, mol=L, prsc=pr, closure="OAAHOC")
+            z, (u, v, Kx, Ky, Kz) = out.value
+            N = z.axes[0].size
+            k = sym.fresh_int("k")
+            rng = [(k >= 0) & (k < N)]
+            se = transc.sqrt(e)
+            z0s = zm * transc.exp(-CM * CL * absU * se / (ust * ust))
+            run.oblige("grid.one-dimensional", SBool(z.ndim == 1), kind="post", props=P)
+            run.oblige("grid.first-node-is-roughness-length", loops.scalar_eq(z.at(0), z0s), kind="post", view="value", props=P)
+            run.oblige("grid.node-n-is-measurement-height", loops.scalar_eq(z.at(n), zm), kind="post", view="value", props=P)
+            run.oblige("wind.u-at-zm", loops.scalar_eq(u.at(n), um), kind="post", view="value", props=PW)
+            run.oblige("wind.v-at-zm", loops.scalar_eq(v.at(n), vm), kind="post", view="value", props=PW)
+            run.oblige("wind.direction-constant", loops.scalar_eq(num(u.at(k)) * vm, num(v.at(k)) * um), kind="post", view="value", assuming=rng, props=PW)
+            Kw = CH * CL * z.at(k) * se
+            for nm, a in (("Kx", Kx), ("Ky", Ky), ("Kz", Kz)):
+                run.oblige("K.closure-formula." + nm, loops.scalar_eq(a.at(k), Kw), kind="post", view="value", assuming=rng, props=P)
+            for nm, a in (("u", u), ("v", v), ("Kx", Kx), ("Ky", Ky), ("Kz", Kz)):
+                run.oblige("profiles.one-dimensional-same-length-as-grid." + nm, SBool(a.ndim == 1) & (a.axes[0].size == N), kind="post", props=P)
+            absu = ust * ust / CM / CL / se * transc.log(z.at(k) / z0s)
+            run.oblige("wind.log-law.u", loops.scalar_eq(u.at(k), um / absU * absu), kind="post", view="value", assuming=rng, props=PW)
+            inequalities(run, "OAAHOC", z, (Kx, Ky, Kz), N, n, zm, z0s, ust, L, pr, 2 * zm, 2 * zm, True, P, rp=order_replay("OAAHOC", "ustar", False, tk == "given"))
+            run.cover("path")
+        ctx.explore("pbl_model.vertical_profiles[OAAHOC|tke %s]" % tk, t_oa, PW)
 
     # z0 -> u* -> z0 round trip returns identical profiles
     for closure in ("MOST", "MOSTM", "CONSTANT"):
@@ -171,12 +367,12 @@ def generate_profiles(ctx):
             # z0 of run A is its first node (obligation grid.first-node-is-roughness-length): the log law inverted for z0
             absU = transc.sqrt(um * um + vm * vm)
             z0A = zm * transc.exp(-KAP * absU / ust + psi(zm / L))
-            run.oblige("roundtrip.z0-of-A-is-first-node", loops.scalar_eq(zA.at(0), z0A), kind="rel", view="value")
+            run.oblige("roundtrip.z0-of-A-is-first-node", loops.scalar_eq(zA.at(0), z0A), kind="rel", view="value", props=P)
             zB, PB = harness.call(run, f, n, zm, (um, vm), z0=z0A, mol=L, prsc=pr, closure=closure).value
-            loops.oblige_equal(run, "z", zB, zA, kind="rel")
+            loops.oblige_equal(run, "z", zB, zA, kind="rel", props=P)
             for nm, a, b in zip(("u", "v", "Kx", "Ky", "Kz"), PA, PB):
-                loops.oblige_equal(run, nm, b, a, kind="rel")
-        ctx.explore("pbl_model.vertical_profiles.roundtrip[%s]" % closure, t_rt, P)
+                loops.oblige_equal(run, nm, b, a, kind="rel", props=PW if nm in ("u", "v") else P)
+        ctx.explore("pbl_model.vertical_profiles.roundtrip[%s]" % closure, t_rt, PW)
 
     # argument errors
     def t_err(run):
@@ -184,9 +380,9 @@ def generate_profiles(ctx):
         n, zm, um, vm, L, pr = inputs(run)
         ust, z0 = sym.fresh_real("ustar"), sym.fresh_real("z0")
         o1 = harness.call(run, f, n, zm, (um, vm), ustar=ust, z0=z0, mol=L, raises=(ValueError,))
-        run.oblige("both-z0-and-ustar-rejected", SBool(o1.raised), kind="xpost")
+        run.oblige("both-z0-and-ustar-rejected", SBool(o1.raised), kind="xpost", props=P)
         o2 = harness.call(run, f, n, zm, (um, vm), ustar=ust, mol=L, closure="NOPE", raises=(ValueError,))
-        run.oblige("unknown-closure-rejected", SBool(o2.raised), kind="xpost")
+        run.oblige("unknown-closure-rejected", SBool(o2.raised), kind="xpost", props=P)
     ctx.explore("pbl_model.vertical_profiles[errors]", t_err, P)
 
 
